@@ -65,6 +65,7 @@ type Node struct {
 
 // Cluster is the executor: a pure function of (RunConfig, action list).
 type Cluster struct {
+	ss      *storeSim // E4 storesim (nil otherwise)
 	opt     Options
 	etLog   []int32 // randomized election timeout after every call that drew randomness
 	etPos   int
@@ -200,6 +201,11 @@ func NewCluster(rc RunConfig, opt Options) *Cluster {
 	c.chk.init()
 	if len(rc.Virtual) > 0 && len(rc.Nodes) > 0 {
 		c.vg = newVGroup(c, rc.Nodes[0].ID, append([]uint64(nil), rc.Virtual...), proto.Clone(cs).(*pb.ConfState), init)
+	}
+	if rc.StoreSim {
+		// E4: no raft node runs
+		c.ss = &storeSim{}
+		return c
 	}
 	// Start everyone.
 	for _, id := range c.ids {
@@ -516,6 +522,11 @@ func (c *Cluster) exec(a Action) bool {
 	case AHealPhase, AVClosePhase:
 		c.healing = true
 		return true
+	case ASAppend, ASSnap, ASCreateSnap, ASCompact, ASQuery:
+		if c.ss == nil {
+			return false
+		}
+		return c.execStore(a)
 	case AVElect, AVPropose, AVReplicate, AVCommit, AVCompact, AVSendApp, AVHeartbeat, AVSendSnap, AVProposeConf:
 		if c.vg == nil {
 			return false
@@ -905,6 +916,15 @@ func (c *Cluster) writeGroup(n *Node, snap *pb.Snapshot, ents []*pb.Entry, hs *p
 		}
 	}
 	if len(ents) > 0 {
+		// probes: the write truncates a stored tail / rewrites, unchanged, a
+		// prefix of a longer stored tail (append is overwrite-from-index)
+		w := n.disk.written
+		if last := ents[len(ents)-1]; last.GetIndex() < w.last() {
+			c.stats.probe("append_truncates_stored_tail")
+			if t, ok := w.term(last.GetIndex()); ok && t == last.GetTerm() {
+				c.stats.probe("append_rewrites_prefix_of_longer_stored_tail")
+			}
+		}
 		if !c.guardDisk(n, func() error { return n.disk.Append(ents) }) {
 			return
 		}
